@@ -24,7 +24,8 @@ from harness.common import clist, cz
 
 PROPERTY = "C11"
 LEVEL = "proof"
-REQ = ["OV.Index.NumpySpec", "OV.Index.OnnxSlice", "OV.Index.ConverterIdx", "OV.Index.EagerIdx", "OV.Index.Corr"]
+REQ = ["OV.Index.NumpySpec", "OV.Index.OnnxSlice", "OV.Index.ConverterIdx", "OV.Index.EagerIdx", "OV.Index.Corr",
+       "OV.Index.AdvSpec", "OV.Index.AdvCorr", "OV.Index.EagerFix"]
 
 
 # ----------------------------------------------------------------------------- Coq literals
@@ -143,13 +144,16 @@ def classify(front, shape, idx, fixed=False):
     """Structural class of an expression on which a front end returned a tensor different from NumPy's.
     fixed: the front end numbers the Gather axes as in the proposed fix, so that class cannot occur."""
     n1 = sum(1 for c in idx if c[0] == "t1")
+    if n1 >= 2:                     # (first: such a tuple differs from NumPy whether or not it also contains the slice corner)
+        return "two-1d-tensor-indices"
+    split = n1 == 1 and any(c[0] in ("int", "t0") for c in idx) and not np_modelled(idx)
+    if fixed and split:
+        return "scalar-and-1d-tensor-index-split-by-slice"
     if _neg_start_hazard(shape, idx):
         return "negative-step-start-below-minus-dim"
-    if n1 >= 2:
-        return "two-1d-tensor-indices"
     if not fixed and _removed_before_gather(front, idx):
         return "gather-axis-after-removed-axis"
-    if n1 == 1 and any(c[0] in ("int", "t0") for c in idx) and not np_modelled(idx):
+    if split:
         return "scalar-and-1d-tensor-index-split-by-slice"
     return "unclassified:" + ",".join(c[0] for c in idx)
 
@@ -284,7 +288,12 @@ def process(ctx, runner, cases, stream, state):
 
 
 EVALS = ["np_agrees", "graph_agrees false", "graph_agrees true", "skel_agrees false", "skel_agrees true",
-         "eager_agrees false", "eager_agrees true", "eskel_agrees false", "eskel_agrees true"]
+         "eager_agrees false", "eager_agrees true", "eskel_agrees false", "eskel_agrees true",
+         "eager_agrees_c true", "eskel_agrees_c true"]
+# code variants per front end, in the order they are tried: name -> (result check, op check)
+VARIANTS = {"converter": [("pinned", "graph_agrees false", "skel_agrees false"), ("gather-axis-fix", "graph_agrees true", "skel_agrees true")],
+            "eager": [("pinned", "eager_agrees false", "eskel_agrees false"), ("gather-axis-fix", "eager_agrees true", "eskel_agrees true"),
+                      ("gather-axis-fix+negative-start-clamp", "eager_agrees_c true", "eskel_agrees_c true")]}
 
 
 def _coq_shards(ctx, bodies, par=8, timeout=900, req=None):
@@ -328,9 +337,11 @@ def coq_compare(ctx, state, shard=400):
             for i in common.parse_nat_list(v):
                 bad[e].append((stream, metas[i]))
     state["pending"] = []
-    for fx in ("false", "true"):            # graphs / op calls the model cannot even express disagree with both variants
-        bad[f"skel_agrees {fx}"] = state["skel_errors"] + bad[f"skel_agrees {fx}"]
-        bad[f"eskel_agrees {fx}"] = state["eskel_errors"] + bad[f"eskel_agrees {fx}"]
+    for e in EVALS:                          # graphs / op calls the model cannot even express disagree with every variant
+        if e.startswith("skel_agrees"):
+            bad[e] = state["skel_errors"] + bad[e]
+        if e.startswith("eskel_agrees"):
+            bad[e] = state["eskel_errors"] + bad[e]
     return bad
 
 
@@ -349,22 +360,24 @@ def report(ctx, bad, n_cases):
     if b:
         ctx.tie_broken("correspondence", "numpy-spec", show(b[0]))
     variants = {}
-    for front, o_key, s_key in (("converter", "graph_agrees", "skel_agrees"), ("eager", "eager_agrees", "eskel_agrees")):
+    for front in ("converter", "eager"):
         chosen = None
-        for fx in ("false", "true"):
-            if not bad[f"{o_key} {fx}"] and not bad[f"{s_key} {fx}"]:
-                chosen = fx
+        for name, o_key, s_key in VARIANTS[front]:
+            if not bad[o_key] and not bad[s_key]:
+                chosen = name
                 break
-        variants[front] = {"false": "pinned", "true": "gather-axis-fix", None: "neither"}[chosen]
+        variants[front] = chosen or "neither"
         what = ("graph result on onnxruntime = run_conv and emitted Slice/Squeeze/Gather operands = conv_ops"
                 if front == "converter" else "eager result = run_eager and eager op calls = eager_ops")
+        _n, o0, s0 = VARIANTS[front][0]
         ctx.obligation(f"correspondence {front}: {what} on {n_cases} cases (variant {variants[front]})", chosen is not None,
-                       "" if chosen else show((bad[f"{o_key} false"] + bad[f"{s_key} false"])[0]))
+                       "" if chosen else show((bad[o0] + bad[s0])[0]))
         if chosen is None:
-            # smallest disagreeing case of the pinned variant
-            items = bad[f"{o_key} false"] + bad[f"{s_key} false"]
+            # smallest disagreeing case of the variant with the fewest disagreements
+            _n, o1, s1 = min(VARIANTS[front], key=lambda t: len(bad[t[1]]) + len(bad[t[2]]))
+            items = bad[o1] + bad[s1]
             items.sort(key=lambda it: (len(it[1][1]), len(it[1][0]), str(it[1][1])))
-            ctx.tie_broken("correspondence", front, f"{len(items)} disagreeing cases; smallest: " + show(items[0]))
+            ctx.tie_broken("correspondence", front, f"{len(items)} disagreeing cases (closest variant {_n}); smallest: " + show(items[0]))
     return variants
 
 
@@ -501,14 +514,18 @@ def load_corpus():
 def report_diffs(ctx, state, bad, variants):
     """A front end returned a tensor that is not NumPy's: VIOLATION, keyed by its structural class when the model of
     the code predicts exactly that tensor, as 'unexplained' otherwise."""
-    fx = {"pinned": "false", "gather-axis-fix": "true", "neither": "false"}
-    unexplained = {"converter": {id(m[2]) for _, m in bad[f"graph_agrees {fx[variants['converter']]}"] + state["skel_errors"]},
-                   "eager": {id(m[2]) for _, m in bad[f"eager_agrees {fx[variants['eager']]}"] + state["eskel_errors"]}}
+    def okey(front):
+        for name, o_key, _s in VARIANTS[front]:
+            if name == variants[front]:
+                return o_key
+        return VARIANTS[front][0][1]
+    unexplained = {"converter": {id(m[2]) for _, m in bad[okey("converter")] + state["skel_errors"]},
+                   "eager": {id(m[2]) for _, m in bad[okey("eager")] + state["eskel_errors"]}}
     seen = {}
     unknown_reported = set()
     diffs = sorted(state["diffs"], key=lambda t: (0 in t[3], t[5]["np"][0] != "ok", t[6][1].size == 0, len(t[4]), int(np.prod(t[3])), len(t[3]), str(t[4])))
     for front, stream, _i, shape, idx, r, o in diffs:
-        cls = classify(front, shape, idx, fixed=variants[front] == "gather-axis-fix")
+        cls = classify(front, shape, idx, fixed=variants[front].startswith("gather-axis-fix"))
         if id(r) in unexplained[front] and not cls.startswith("unclassified"):
             cls = "unexplained:" + cls
         key = f"C11:{front}:{cls}"
@@ -568,6 +585,7 @@ def run(ctx):
         import sys
         from harness import c11_adv
         adv_cover = c11_adv.run(ctx, sys.modules[__name__], runner)
+        state["adv_eager_variant"] = adv_cover.get("eager_variant")
         state["streams"]["adv-forms"] = adv_cover["cases"]
     finally:
         runner.close()
